@@ -134,11 +134,12 @@ func runC08(c *core.Ctx) {
 					}
 					cfg := sessmc.Config{Initiator: ini, BeginString: bs, ResetOnLogout: rl, ResetOnDisconnect: rd}
 					sp := variantDefs["C08"](cfg)
-					sp.depth, sp.relative = depth, true
+					sp.depth, sp.relative, sp.conform = depth, true, 40
 					runSearch(c, sp)
 				}
 			}
 		}
 	}
+	runConformance(c)
 	c.Set("depth", depth)
 }
